@@ -10,7 +10,7 @@
 (***************************************************************************)
 EXTENDS Chess, Json, Reporting
 
-CONSTANTS SHARD, NSHARDS, DENSITY
+CONSTANTS SHARD, NSHARDS, DENSITY, MODE
 
 W(k) == PieceOf(0, k)
 Bl(k) == PieceOf(1, k)
@@ -51,13 +51,24 @@ Config(t, ws, bs, full) ==
               kings == {<<7, W(King)>>} \cup (IF hasBK THEN {} ELSE {<<48, Bl(King)>>})
           IN  Emit(A \cup D \cup {<<t, Bl(vk)>>} \cup kings)
 
-\* like pieces on the target's own rank and file on both sides of it, each possibly with an x-ray piece behind:
-\* small, never thinned (ties among equally valued attackers of one kind are decided by square order)
-WhiteRank == {<<18, W(Pawn)>>, <<26, W(Rook)>>, <<29, W(Rook)>>, <<25, W(Queen)>>, <<30, W(Rook)>>, <<11, W(Rook)>>, <<43, W(Rook)>>}
-BlackRank == {<<36, Bl(Pawn)>>, <<26, Bl(Rook)>>, <<29, Bl(Rook)>>, <<25, Bl(Rook)>>, <<30, Bl(Queen)>>, <<19, Bl(Rook)>>, <<35, Bl(Rook)>>}
+\* MODE "rank": two black like pieces on the target's own rank (or file) on both sides of it are ALWAYS among the
+\* defenders, each possibly with a white x-ray piece behind it; white attackers of every kind incl. a bishop and a
+\* queen on other lines.  Ties among equally valued attackers of one kind are decided by square order: this family
+\* makes that order matter.  Small; never thinned.
+WhiteRank == {<<18, W(Pawn)>>, <<9, W(Bishop)>>, <<3, W(Queen)>>, <<17, W(Knight)>>, <<25, W(Queen)>>, <<30, W(Rook)>>,
+              <<24, W(Rook)>>, <<31, W(Rook)>>, <<59, W(Rook)>>}
+BlackPairs == {{<<26, Bl(Rook)>>, <<29, Bl(Rook)>>}, {<<26, Bl(Rook)>>, <<28, Bl(Rook)>>}, {<<25, Bl(Rook)>>, <<29, Bl(Rook)>>},
+               {<<19, Bl(Rook)>>, <<35, Bl(Rook)>>}, {<<26, Bl(Queen)>>, <<29, Bl(Queen)>>}}
+BlackThird == {<<36, Bl(Pawn)>>, <<33, Bl(Knight)>>, <<54, Bl(Bishop)>>, <<43, Bl(Rook)>>}
 
-Run == /\ Config(27, WhiteD4, BlackD4, FALSE) /\ Config(59, WhiteD8, BlackD8, FALSE)
-       /\ Config(27, WhiteRank, BlackRank, TRUE)
+RankFamily ==
+    \A vk \in {Pawn, Knight, Rook, Queen} :
+      \A A \in {T \in Small(WhiteRank, 3) : T # {} /\ Idx(T) % NSHARDS = SHARD} :
+        \A P \in BlackPairs : \A X \in Small(BlackThird, 1) :
+          Emit(A \cup P \cup X \cup {<<27, Bl(vk)>>, <<7, W(King)>>, <<48, Bl(King)>>})
+
+Run == IF MODE = "rank" THEN RankFamily
+       ELSE Config(27, WhiteD4, BlackD4, FALSE) /\ Config(59, WhiteD8, BlackD8, FALSE)
 ASSUME Run
 VARIABLE x
 Init == x = 0
